@@ -114,7 +114,8 @@ class PhasePredictor(QTable):
             raise ValueError("Some timestamps outside predictor range!")
 
         span_ends = self["tmid"] + self["span"] / 2
-        index = np.searchsorted(span_ends.mjd, times.mjd)
+        # Compare MJDs on one time scale: `times` may be given in TAI, TT, ...
+        index = np.searchsorted(span_ends.mjd, getattr(times, span_ends.scale).mjd)
         dt = (times - self["tmid"][index]).to_value(u.s)
         return index, dt
 
